@@ -808,6 +808,41 @@ func run(r *mon.Run) {
 			}
 			each(fmt.Sprintf("record-size=2^%d", bits(rs)), m)
 		}
+		// a record-size field just below 2^64 (record size + 32 wraps) on a stream whose only record of k bytes is
+		// authenticated by the digest: a limit check done after the addition lets it through
+		for k := 0; k < 32; k++ {
+			if !mine() {
+				continue
+			}
+			var sb bytes.Buffer
+			pl := r.Rand("mi-wrap", k).Bytes(k)
+			dg, _ := enc.Encode(&sb, pl, 64)
+			for _, base := range []uint64{^uint64(0) - 31, ^uint64(0) - 63, 1<<63 - 32, 1<<32 - 32} {
+				m := append([]byte{}, sb.Bytes()...)
+				if len(m) < 8 {
+					continue
+				}
+				rs := base + uint64(k)
+				for j := 0; j < 8; j++ {
+					m[j] = byte(rs >> uint(56-8*j))
+				}
+				guard(r, "mice.NewDecoder+Read", fmt.Sprintf("record-size=2^64-32+k/authenticated-record/%d", bits(base)), m, len(m), func() {
+					d, err := enc.NewDecoder(bytes.NewReader(m), dg, 16384)
+					if err == nil {
+						io.Copy(io.Discard, d)
+					}
+				})
+				// the same k bytes authenticated as an INTERMEDIATE record (hash over bytes || 0x01), more input following
+				inter := sha256.Sum256(append(append([]byte{}, pl...), 1))
+				m2 := append(append(append([]byte{}, m[:8]...), pl...), bytes.Repeat([]byte{'B'}, 64)...)
+				guard(r, "mice.NewDecoder+Read", fmt.Sprintf("record-size=2^64-32+k/authenticated-intermediate/%d", bits(base)), m2, len(m2), func() {
+					d, err := enc.NewDecoder(bytes.NewReader(m2), enc.FormatDigestHeader(inter[:]), 16384)
+					if err == nil {
+						io.Copy(io.Discard, d)
+					}
+				})
+			}
+		}
 		// hostile digests
 		for _, dg := range []string{"", "=", digest + "=", strings.Repeat("A", 100000), string(enc) + "=" + strings.Repeat("A", 1<<20), string(enc) + "=" + strings.Repeat("=", 1000)} {
 			dg := dg
